@@ -1,6 +1,6 @@
 \* emission (thorough, wide): 2 objects (one appears later) on 2 positions, 2 parameters x {unset,1}; every edge and every state (with all query results) up to depth 5
 CONSTANTS NObj = 2  NInit = 1  NLoc = 2  NPar = 2  NVal = 1  MaxC = 1  MaxN = 1  MaxSnaps = 3  MaxLevel = 5
-CONSTANT Labels <- McLabels
+CONSTANT Labels <- McLabelsC
 ACTION_CONSTRAINT Emit
 INVARIANT EmitState
 INIT Init
